@@ -406,10 +406,10 @@ def colliding_cases(tier):
 
 
 def colliding_ref_cases(tier):
-    # (read direction: only the pairs with different names - for equal identifiers the reference ENCODER would have to
-    # re-announce a type on every switch to produce an unambiguous stream, which is the writer's part, checked above)
+    # (read direction: the reference encoder re-announces a definition whenever another one has been announced under
+    # the same identifier since, so these streams say unambiguously which definition every record uses)
     return [dict(c, widths=[0], variants=[0] * len(c["seq"]), repeat_desc=[], repeat_header=[], bin_names=False)
-            for c in colliding_cases(tier) if len({m.p["desc"][0] for m in c["seq"]}) > 1]
+            for c in colliding_cases(tier)]
 
 
 def _refused_case():
